@@ -1,12 +1,35 @@
 // Live-server driver: a real Http::Endpoint on 127.0.0.1 (ephemeral port) inside this process, driven by raw
 // sockets from the driver thread.  One op per input line, one result line per op (see common.h).
 #include "common.h"
+#include <sstream>
+#include <mutex>
+#include <memory>
+#include <vector>
+#include <string>
+#include <map>
+#include <unordered_map>
+#include <chrono>
+#include <atomic>
+#include <functional>
+#include <thread>
+#include <condition_variable>
+#include <deque>
+#include <set>
+#include <list>
+#include <array>
+#include <algorithm>
+#include <iostream>
+// the lifecycle scenarios need to forward to Http::Handler's private connection callbacks; harness only
+#define private public
+#include <pistache/http.h>
+#undef private
 #include "dump.h"
 #include <pistache/endpoint.h>
 #include <pistache/http.h>
 #include <pistache/http_headers.h>
 #include <pistache/cookie.h>
 #include <pistache/client.h>
+#include <pistache/peer.h>
 
 #include <sys/socket.h>
 #include <netinet/in.h>
@@ -137,10 +160,22 @@ Shared G;
 
 std::string dumpRequest(const Http::Request& req);
 
+// lifecycle log: (client port, event) in the order the handler was told; C = connection, I = input, D = disconnection
+struct LifeLog { std::mutex m; std::vector<std::pair<int, char>> ev; } LIFE;
+void lifeLog(const std::shared_ptr<Tcp::Peer>& peer, char e)
+{
+    int port = static_cast<int>(static_cast<uint16_t>(peer->address().port()));
+    std::lock_guard<std::mutex> g(LIFE.m); LIFE.ev.emplace_back(port, e);
+}
+
 class ScriptHandler : public Http::Handler
 {
 public:
     HTTP_PROTOTYPE(ScriptHandler)
+
+    void onConnection(const std::shared_ptr<Tcp::Peer>& peer) override { lifeLog(peer, 'C'); Http::Handler::onConnection(peer); }
+    void onInput(const char* buffer, size_t len, const std::shared_ptr<Tcp::Peer>& peer) override { lifeLog(peer, 'I'); Http::Handler::onInput(buffer, len, peer); }
+    void onDisconnection(const std::shared_ptr<Tcp::Peer>& peer) override { lifeLog(peer, 'D'); Http::Handler::onDisconnection(peer); }
 
     void onRequest(const Http::Request& req, Http::ResponseWriter response) override
     {
@@ -546,6 +581,70 @@ std::string opTimeout(const std::vector<std::string>& w)
     return "status=" + std::to_string(statusOf(raw)) + " handler=" + std::to_string(handled) + " closed=" + (closed ? "1" : "0") + " at=" + std::to_string(answeredAt);
 }
 
+// life <hdrMs> <threads> <scripts a,b,c...>: one connection per script, all opened first, then the actions are played position by
+// position across the connections.  Actions: R full request + read the response, P partial request, C close, H half-close (shutdown
+// WR, read to EOF, close), X reset (SO_LINGER 0), T silence for hdr + 1300 ms (then read what the server sent), W wait 50 ms
+std::string opLife(const std::vector<std::string>& w)
+{
+    if (w.size() != 4) return "bad-op";
+    Cfg c; c.hdrMs = atoi(w[1].c_str()); c.bodyMs = c.hdrMs; c.threads = atoi(w[2].c_str());
+    auto scripts = split(w[3], ',');
+    stopEndpoint();
+    uint16_t port = ensureEndpoint(c);
+    RespScript sc; sc.mode = "send"; sc.code = 200; sc.chunks = { "ok" };
+    { std::lock_guard<std::mutex> g(G.m); G.script = sc; }
+    // warm-up: one served connection, then the baseline
+    { int fd = connectTo(port); sendAll(fd, "GET /w HTTP/1.1\r\nHost: h\r\n\r\n"); readResponse(fd, 300); ::close(fd); }
+    std::this_thread::sleep_for(std::chrono::milliseconds(60));
+    { std::lock_guard<std::mutex> g(LIFE.m); LIFE.ev.clear(); }
+    int base = countFds();
+    struct Conn { int fd = -1; int lport = 0; std::string seen; bool open = false; };
+    std::vector<Conn> cs(scripts.size());
+    for (auto& k : cs) {
+        k.fd = connectTo(port); if (k.fd < 0) return "connect-failed";
+        sockaddr_in a {}; socklen_t l = sizeof a; ::getsockname(k.fd, reinterpret_cast<sockaddr*>(&a), &l); k.lport = ntohs(a.sin_port); k.open = true;
+    }
+    size_t maxlen = 0; for (auto& sct : scripts) maxlen = std::max(maxlen, sct.size());
+    const std::string REQ = "POST /l HTTP/1.1\r\nHost: h\r\nContent-Length: 3\r\n\r\nabc";
+    for (size_t j = 0; j < maxlen; ++j) {
+        bool waitT = false;
+        for (size_t i = 0; i < cs.size(); ++i) {
+            if (j >= scripts[i].size() || !cs[i].open) continue;
+            char a = scripts[i][j]; Conn& k = cs[i];
+            if (a == 'R') { sendAll(k.fd, REQ); k.seen += std::to_string(statusOf(readResponse(k.fd, 300))) + ";"; }
+            else if (a == 'P') { sendAll(k.fd, REQ.substr(0, 25)); std::this_thread::sleep_for(std::chrono::milliseconds(20)); }
+            else if (a == 'C') { ::close(k.fd); k.open = false; }
+            else if (a == 'H') { ::shutdown(k.fd, SHUT_WR); bool cl; readResponse(k.fd, 300, &cl, false); ::close(k.fd); k.open = false; }
+            else if (a == 'X') { linger lg { 1, 0 }; ::setsockopt(k.fd, SOL_SOCKET, SO_LINGER, &lg, sizeof lg); ::close(k.fd); k.open = false; }
+            else if (a == 'T') waitT = true;
+            else if (a == 'W') std::this_thread::sleep_for(std::chrono::milliseconds(50));
+        }
+        if (waitT) {
+            std::this_thread::sleep_for(std::chrono::milliseconds(c.hdrMs + 1300));
+            for (size_t i = 0; i < cs.size(); ++i)
+                if (j < scripts[i].size() && scripts[i][j] == 'T' && cs[i].open) {
+                    bool cl = false; std::string r = readResponse(cs[i].fd, 50, &cl, false);
+                    cs[i].seen += std::to_string(statusOf(r)) + (cl ? "!" : "") + ";";
+                    if (cl) { ::close(cs[i].fd); cs[i].open = false; }
+                }
+        }
+    }
+    for (auto& k : cs) if (k.open) { ::close(k.fd); k.open = false; }
+    std::this_thread::sleep_for(std::chrono::milliseconds(150));
+    int after = countFds();
+    // can a new connection still be served?
+    int ok = 0; { int fd = connectTo(port); if (fd >= 0) { sendAll(fd, "GET /w HTTP/1.1\r\nHost: h\r\n\r\n"); ok = statusOf(readResponse(fd, 300)) == 200; ::close(fd); } }
+    std::string out;
+    std::vector<std::pair<int, char>> ev; { std::lock_guard<std::mutex> g(LIFE.m); ev = LIFE.ev; }
+    for (size_t i = 0; i < cs.size(); ++i) {
+        std::string shape; char last = 0;
+        for (auto& e : ev) if (e.first == cs[i].lport) { if (e.second == 'I' && last == 'I') continue; shape.push_back(e.second); last = e.second; }
+        if (i) out += ",";
+        out += (shape.empty() ? "-" : shape) + "/" + (cs[i].seen.empty() ? "-" : cs[i].seen);
+    }
+    return "conns=" + out + " fds=" + std::to_string(after - base) + " serve=" + std::to_string(ok);
+}
+
 } // namespace
 
 int main()
@@ -555,6 +654,7 @@ int main()
     ops["resp"] = opResp;
     ops["rtreq"] = opRtReq;
     ops["lim"] = opLim;
+    ops["life"] = opLife;
     ops["to"] = opTimeout;
     ops["rtresp"] = opRtResp;
     int rc = runLoop(ops, 30);
